@@ -28,6 +28,15 @@ def _case(draw):
             layers.append({'t': 'res_conv', 'n': L['cout'], 'bias': draw(st.booleans())})
     spec = dict(spec, layers=layers)
     pats = draw(st.lists(st.sampled_from(['^0$', '^1$', r'^2', 'Conv2d', 'Linear$', 'MyLinear', r'\.fn$', '^3', 'nomatch', 'fn']), max_size=2))
+    cand = [i for i, L in enumerate(layers) if L['t'] in ('linear', 'conv')]
+    if cand and draw(st.integers(0, 3)) == 0:
+        # a supported module that is reachable under two names (shared instance): it is judged by the first name named_modules()
+        # reports; skip patterns are chosen to hit one of its two names and not the other
+        of = draw(st.sampled_from(cand))
+        first = draw(st.booleans())
+        spec['alias'] = {'of': of, 'first': first}
+        n1, n2 = ('0.m', str(of + 1)) if first else (str(of), f'{len(layers)}.m')
+        pats = draw(st.sampled_from([[f'^{re.escape(n1)}$'], [f'^{re.escape(n2)}$'], [r'\.m$'], pats, pats + [f'^{re.escape(n2)}$']]))
     ops = []
     nsteps = draw(st.integers(1, 3))
     for i in range(nsteps):
@@ -149,8 +158,8 @@ class C10(Prop):
                    'bit-identity with the twin relies on deterministic CPU kernels (torch.use_deterministic_algorithms is not required for these ops)']
     examples = {'quick': 400, 'thorough': 1200}
     shards = {'quick': 8, 'thorough': 16}
-    required_labels = {'quick': ['nontrivial=True', 'param_dtype=bfloat16', 'param_dtype=float64', 'residual=True', 'frozen=True', 'skipped=True', 'mem_format=channels_last', 'factor_dtype_is_param_dtype=True', 'mid_iteration_eval=True', 'autocast=True', 'mixed_modes=True', 'model_channels_last=True', 'wide_grads=True'],
-                       'thorough': ['nontrivial=True', 'param_dtype=bfloat16', 'param_dtype=float64', 'residual=True', 'frozen=True', 'skipped=True', 'mem_format=channels_last', 'factor_dtype_is_param_dtype=True', 'mid_iteration_eval=True', 'autocast=True', 'mixed_modes=True', 'model_channels_last=True', 'wide_grads=True']}
+    required_labels = {'quick': ['nontrivial=True', 'param_dtype=bfloat16', 'param_dtype=float64', 'residual=True', 'frozen=True', 'skipped=True', 'mem_format=channels_last', 'factor_dtype_is_param_dtype=True', 'mid_iteration_eval=True', 'autocast=True', 'mixed_modes=True', 'model_channels_last=True', 'wide_grads=True', 'shared_module=True'],
+                       'thorough': ['nontrivial=True', 'param_dtype=bfloat16', 'param_dtype=float64', 'residual=True', 'frozen=True', 'skipped=True', 'mem_format=channels_last', 'factor_dtype_is_param_dtype=True', 'mid_iteration_eval=True', 'autocast=True', 'mixed_modes=True', 'model_channels_last=True', 'wide_grads=True', 'shared_module=True']}
 
     def strategy(self, tier):
         return _case()
@@ -212,7 +221,7 @@ class C10(Prop):
         labels = {'param_dtype': case['param_dtype'], 'method': case['method'], 'residual': has_res,
                   'frozen': any('frozen' in L for L in case['spec']['layers']), 'skipped': supported_unreg > 0 and bool(pats),
                   'loss_scale': case['loss_scale'] is not None, 'n_registered': min(len(registered), 5),
-                  'mem_format': case.get('mem_format', 'contiguous'),
+                  'mem_format': case.get('mem_format', 'contiguous'), 'shared_module': case['spec'].get('alias') is not None,
                   'factor_dtype_is_param_dtype': case['factor_dtype'] == case['param_dtype']}
         scale = case['loss_scale'] or 1.0
         accum = case.get('accum', 1)
